@@ -474,6 +474,16 @@ func (q builtSeq) held(pkg string, up bool) string {
 			return fmt.Sprintf("%s %s: kept bytes %x: decoded command %d differs: %s", pkg, q.names(), first, i, d)
 		}
 	}
+	// the decoded commands are kept while every command is decoded once more from its own encoding (fresh buffers,
+	// in reverse order)
+	for i := len(held) - 1; i >= 0; i-- {
+		_, _, _ = ad.unmarshalSeq(up, append([]byte{}, held[i].c...))
+	}
+	for i := range q.specs {
+		if d := diff(q.pls[i], gp[i]); d != "" {
+			return fmt.Sprintf("%s %s: the decoded command %d changes after later decodes of other buffers: %s", pkg, q.names(), i, d)
+		}
+	}
 	return ""
 }
 
@@ -682,7 +692,7 @@ func TestProp(t *testing.T) {
 		200000, 4500000, genCmd, checkCmd)
 
 	evid.Rapid(r, t, "sequences",
-		"rapid: package x direction x 1..6 (90% >= 2) commands of that package and direction with in-range field values as in 'commands' (DataFragment only in last position), encoded with Commands.MarshalBinary. Oracle: no panic, no error, total length = sum of the specified sizes, Commands.UnmarshalBinary(direction) gives the same CIDs and field-by-field equal payloads; held results: the encoded bytes are kept while the last command, the first n-1 commands, every command alone (Command.MarshalBinary) and the sequence again are encoded - after each call every kept slice still equals its private copy, and the first one still decodes to the sequence. "+
+		"rapid: package x direction x 1..6 (90% >= 2) commands of that package and direction with in-range field values as in 'commands' (DataFragment only in last position), encoded with Commands.MarshalBinary. Oracle: no panic, no error, total length = sum of the specified sizes, Commands.UnmarshalBinary(direction) gives the same CIDs and field-by-field equal payloads; held results: the encoded bytes are kept while the last command, the first n-1 commands, every command alone (Command.MarshalBinary) and the sequence again are encoded - after each call every kept slice still equals its private copy, and the first one still decodes to the sequence; the decoded commands are unchanged after every command was decoded once more from its own bytes. "+
 			"A decode error is attributed to known finding K5 iff it appears exactly when a command is appended directly behind a DevVersionReq to a prefix that round-trips (the walk restarts at the appended command, so every command and every other adjacency of the sequence is still checked). Non-trivial: >= 2 commands.",
 		150000, 3500000, genSeq, checkSeq)
 
